@@ -196,7 +196,8 @@ def pytorch_stft_frame_computer(
         sig = torch.cat(
             [sig[:pad_left].flip(0), sig, sig[sig_len - pad_right :].flip(0)]
         )
-    sig = sig.as_strided((num_frames, frame_length), (frame_shift, 1))
+    # (without padding this is still the caller's tensor, which need not have unit stride)
+    sig = sig.contiguous().as_strided((num_frames, frame_length), (frame_shift, 1))
     y: List[torch.Tensor] = []
     if include_energy:
         energy = torch.linalg.norm(sig, 2, 1) / math.sqrt(frame_length)
